@@ -104,6 +104,18 @@ def cases_for(rng, tier):
                         sa, sb = suites.ref_format(v, bytes(a), True), suites.ref_format(v, bytes(b2), True)
                         cases.append("cmpstr %s %s %s" % (v, hx(sa.encode()), hx(sb.lower()[2:].encode())))
                         cases.append("cmpstr %s %s %s" % (v, hx(sb.encode()), hx(sa.encode())))
+        # a 2-, 3- or 4-byte character replacing as many ASCII bytes (same byte length) near the prefix, on either side
+        t = suites.ref_format(v, suites.random_bin(rng, v), True)
+        for ch in ("\u00e9", "\u20ac", "\U0001F600"):
+            enc = ch.encode("utf-8")
+            for off in range(0, 5):
+                d = t.encode()[:off] + enc + t.encode()[off + len(enc):]
+                cases.append("cmpstr %s %s %s" % (v, hx(d), hx(t.encode())))
+                cases.append("cmpstr %s %s %s" % (v, hx(t.encode()), hx(d)))
+                if v == "N":
+                    cases.append("cmpstr_default %s %s" % (hx(d), hx(t.encode())))
+                    cases.append("cmpstr_default %s %s" % (hx(t.encode()), hx(d)))
+                    cases.append("cmpstr_default %s %s" % (hx(d), hx(d)))
         cases.append("cmpstr %s %s %s" % (v, hx(b""), hx(b"")))
         cases.append("cmpstr %s %s %s" % (v, hx(b"TNULL"), hx(b"T1")))
     for _ in range(n):
